@@ -32,6 +32,12 @@ static A: vcore::alloc::Counting = vcore::alloc::Counting;
 static THOROUGH: OnceLock<bool> = OnceLock::new();
 /// set for the cases of the 2-deviation class: formats may run a lighter set of repeated leaf calls
 pub static LIGHT: std::sync::atomic::AtomicBool = std::sync::atomic::AtomicBool::new(false);
+/// set for the cases whose deviation is none / one field / a chunk edit / trailing data: the formats run their
+/// path-based whole-file consumers (thorough only) for these classes, not for prefixes and 2-deviation cases
+pub static HEAVY: std::sync::atomic::AtomicBool = std::sync::atomic::AtomicBool::new(false);
+pub fn heavy() -> bool {
+    thorough() && HEAVY.load(std::sync::atomic::Ordering::Relaxed)
+}
 pub fn thorough() -> bool {
     *THOROUGH.get().unwrap_or(&false)
 }
@@ -359,9 +365,9 @@ struct FormatSpace {
 }
 
 /// thorough: header-level sites per seed whose pairs are all enumerated (strided if a seed has more)
-const PAIR_SITES_T: usize = 56;
+const PAIR_SITES_T: usize = 48;
 /// the same for the additional (tier2) seeds of thorough
-const PAIR_SITES_T2: usize = 24;
+const PAIR_SITES_T2: usize = 16;
 
 /// site / chunk-op budgets per seed
 struct Budget {
@@ -413,6 +419,8 @@ impl FormatSpace {
                 prefixes: prefix_lengths(s.bytes.len(), tier == Tier::Thorough),
                 field_sites,
                 vals: b.vals.clone(),
+                far_from: if tier == Tier::Thorough { FAR_SITES } else { usize::MAX },
+                vals_far: (0..VALS.len()).collect(),
                 chunk_ops: chunk_ops(s, b.chunk_ops, tier == Tier::Thorough),
                 pair_sites,
                 near_pairs,
@@ -443,6 +451,7 @@ impl FormatSpace {
                 sandbox::SymServer::spawn(&|i, skip| {
                     let (k, d) = self.locate(i);
                     let s = &self.seeds[k];
+                    set_class_flags(&d);
                     match s.apply(&d) {
                         Some(input) => sb.run(input.len(), true, skip, false, &|rec: &mut Recorder| case_body(&*self.fmt, s, &input, rec, &sc.0)),
                         None => Default::default(),
@@ -477,6 +486,12 @@ impl FormatSpace {
     }
 }
 
+/// deviation class switches read by the formats (set identically in the worker and in the symbolizer server)
+fn set_class_flags(d: &Dev) {
+    LIGHT.store(matches!(d, Dev::Field2 { .. }), std::sync::atomic::Ordering::Relaxed);
+    HEAVY.store(!matches!(d, Dev::Field2 { .. } | Dev::Prefix(_)), std::sync::atomic::Ordering::Relaxed);
+}
+
 /// The one function through which both the worker and the symbolizer server enter a case: the
 /// address chains taken inside are cut at this frame, so they agree between the two.
 #[inline(never)]
@@ -508,7 +523,7 @@ impl Space for FormatSpace {
             return r;
         };
         let (sc, sb, srv) = self.sb();
-        LIGHT.store(matches!(d, Dev::Field2 { .. }), std::sync::atomic::Ordering::Relaxed);
+        set_class_flags(&d);
         let body = |rec: &mut Recorder| case_body(&*self.fmt, s, &input, rec, &sc.0);
         let name = self.fmt.name();
         let syms = self.syms.get_or_init(SymCache::new);
@@ -866,19 +881,19 @@ fn main() {
         (WDT Classic..Dragonflight, WDL Vanilla..Legion, M2 MD20 256..310 and MD21 around Legion/Shadowlands/TWW payloads, skin/anim old+new layouts with up to 9 submeshes / sections / bones, WMO MVER 17..23 roots and groups, \
         every BLP version x encoding x alpha depth incl. 1x1 and non-square images, larger DBC tables (100..257 records), PTCH payloads of 4 KiB, codec streams of 6 KiB and the codecs whose primary seed is missing, \
         MPQ V1-V4 x further codec/crypto/CRC/attribute/table-compression configurations, 40-file archives, archives nested behind a user-data header (V2/V3/V4) and embedded at 0x200/0x600 behind foreign bytes). \
-        Deviations, each class enumerated completely: none (the seed); EVERY prefix length 0..len-1 (every truncation point); trailing data (8 kinds: 1/4/8/4096 bytes of 00 or FF, a copy of the file head); \
+        Deviations, each class enumerated completely: none (the seed); EVERY prefix length 0..len-1 (every truncation point; the one seed above 256 KiB, a 256-chunk terrain tile: every length within its first 64 KiB and last 4 KiB, every 7th in between); trailing data (8 kinds: 1/4/8/4096 bytes of 00 or FF, a copy of the file head); \
         EVERY located 32-bit field position (all header dwords, magic/size/first payload dwords of every chunk incl. sub-chunks, all dwords of the non-chunked files, table entries, for MPQ also the plaintext dwords inside the \
-        encrypted hash/block/HET/BET tables: decrypt, patch, re-encrypt; no striding) x 20 values {0,1,2,255,256,2^15,2^16-1,2^16,2^16-1<<16,2^30,2^31-1,2^31,2^32-1,field-1,field+1,file_len-1,file_len,file_len+1,rest,rest+1} (rest = bytes that follow the field); \
+        encrypted hash/block/HET/BET tables: decrypt, patch, re-encrypt; no striding; sites beyond the first 2048 of a seed, which one seed has, take the 10 values of the quick tier) x 20 values {0,1,2,255,256,2^15,2^16-1,2^16,2^16-1<<16,2^30,2^31-1,2^31,2^32-1,field-1,field+1,file_len-1,file_len,file_len+1,rest,rest+1} (rest = bytes that follow the field); \
         chunk edits for every chunk (strided only above 600 chunks per seed): delete, duplicate, swap-with-next, 8 consistent payload resizes {-1,-2,-3,-4,+1,+4,empty,half} (own size field and enclosing chunks follow), \
         and per sibling group (top level / children of one container, <= 24 members, strided if larger) every pair of siblings exchanged and every pair deleted; \
-        2-field deviations: ALL pairs of <= 56 header-level sites of a primary seed (<= 24 of a tier2 seed; strided if a seed has more) x 6x6 values {0,2^32-1,2^31-1,2^31,field+1,file_len}, \
+        2-field deviations: ALL pairs of <= 48 header-level sites of a primary seed (<= 16 of a tier2 seed; strided if a seed has more) x 6x6 values {0,2^32-1,2^31-1,2^31,field+1,file_len}, \
         plus every pair of header-level sites at distance <= 3 in file order (the count/offset/size couples of one structure) among the first 400 header-level sites that is not in the all-pairs set x 8x8 values {0,1,2^31-1,2^31,2^32-1,field+1,file_len,2^16}. \
         Every case runs all entry points of the format in a forked child under the monitors: no panic, no abort/signal, no stack overflow, return within 50 s (engine watchdog 60 s), \
         no single allocation request and no peak live heap above 256 MiB + 4096 x input_len (requests above the limit are refused by the counting allocator). \
         Entry points of this tier beyond those of quick: MPQ header::find_header, MpqHeader::read, HET/BET/hash/hi-block table lookups on the opened archive, PatchChain::extract_files/get_chain_info, MutableArchive::find_file/load_attributes/verify_signature, \
-        and (1-deviation classes) ParallelArchive::open/extract_files_parallel/read_file_with_new_handle, rebuild_archive[list_only], compare_archives; PatchHeader::parse; compression::rle::decompress and two more expected sizes; \
-        M2Model::parse_chunked, resolve_bone_animations, AnimationManagerBuilder::from_model, embedded skins 1..3; SkinHeader/OldSkinHeader parsers; AnimFormatDetector/AnimHeader/AnimParser; CombinedAlphaMap::new on the parsed terrain chunks, AdtSet::load_from_path + merge; \
-        blp_to_image of every level, BlpJpeg::full_jpeg, load_blp (with BLP0 mip files); DbcVersion::detect, DbcHeader/Wdb2Header/Wdb5Header::parse, CachedStringBlock. \
+        and (seed, field, chunk-edit and trailing-data cases) ParallelArchive::open/extract_files_parallel/read_file_with_new_handle, rebuild_archive[list_only], compare_archives; PatchHeader::parse; compression::rle::decompress and two more expected sizes; \
+        M2Model::parse_chunked, resolve_bone_animations, AnimationManagerBuilder::from_model, embedded skins 1..3; SkinHeader/OldSkinHeader parsers; AnimFormatDetector/AnimHeader/AnimParser; CombinedAlphaMap::new on the parsed terrain chunks, AdtSet::load_from_path + merge (same classes, inputs <= 64 KiB); \
+        blp_to_image of every level, BlpJpeg::full_jpeg, load_blp (with BLP0 mip files; same classes); DbcVersion::detect, DbcHeader/Wdb2Header/Wdb5Header::parse, CachedStringBlock. \
         A dying child is re-run without the call that killed it (up to 4 deaths per case) so that the other entry points of the case are still observed. \
         A case is non-trivial when a parser consumed more than 8 bytes of its input (counting reader; for the path/slice-only APIs of mpq, blp, ptch, codec: input longer than 8 bytes); cases whose deviation leaves the seed unchanged are skipped and counted. Distinct by (format, seed, deviation). \
         Symptom = entry point + failure class + site (panic: source file, innermost /repo function, message with digits collapsed; abort: innermost /repo function of the dying call chain).";
@@ -915,7 +930,8 @@ fn main() {
             json!({
                 "prefix_lengths": "every length 0..len-1 of every seed",
                 "values_per_field": VALS_T.len(),
-                "field_sites": "every located site of every seed (no stride)",
+                "field_sites": "every located site of every seed (no stride); sites beyond the first 2048 of a seed take the 10 quick values",
+                "huge_seed_prefixes": "seed > 256 KiB: every length in the first 64 KiB and last 4 KiB, every 7th in between",
                 "chunk_edit_kinds": {"delete": 1, "duplicate": 1, "swap_with_next": 1, "payload_resize": RESIZES.len(), "sibling_pair_swap": "all pairs of <= 24 siblings per group", "sibling_pair_delete": "all pairs of <= 24 siblings per group"},
                 "chunks_per_seed_max": 600,
                 "all_pairs_header_sites": {"primary_seed": PAIR_SITES_T, "tier2_seed": PAIR_SITES_T2, "value_grid": [VALS2.len(), VALS2.len()]},
